@@ -32,7 +32,15 @@ RULE = ('template trees over Table/Point/Function/Constant atoms, AtomicMultiCha
         'mapping node (outer scope) or below it (mapped scope) x {true where it belongs and false in the other scope, '
         'the converse}; D2 loop index = a name of its own range / enclosing bound / window; D3 every node kind around a '
         'FunctionPT with all undeclared internal names (t, measurement and channel names, loop indices, mapping keys) '
-        'as extra parameters; D4 channel swap / rename x dropped channels x removed names.  Families: exact declared '
+        'as extra parameters; D4 channel swap / rename x dropped channels x removed names; D5 every frame-pushing node '
+        'kind (repetition, sequence, for loop, time reversal, to_single_waveform, stacked) between a mapping that rebinds '
+        'the loop index and the constrained reader; H1 histories of create_program calls on ONE template object whose '
+        'consecutive assignments differ only in values with equal Python hashes (-1/-2 as int, float, numpy.int64; '
+        'n / n +- (2**61-1)) and lie on both sides of a constraint, plus calls after a failed call; H2 loop indices '
+        'running through such values; D7 the very same object in two places; D8 zero-duration atoms, parametrised first '
+        'entry times; D9 ParallelChannelPT below atomic composites; D10 time dependent ParallelChannelPT values x dropped '
+        'channels x removed names.  Values are handed over as int / float / numpy scalar / string / DictScope.  '
+        'Families: exact declared '
         'names, +extra names (second assignment; the two programs are compared by what they play), one declared name '
         'removed, one constraint violated, perturbed values, channels dropped (all / partial), zero factor + removed '
         'name in a function product, malformed (non-integer count, zero step, negative window).  Declared names are '
@@ -47,12 +55,14 @@ TRUSTED = [
     'of two programs by loop structure, repetition counts, measurement windows and 5 samples per leaf and channel',
 ]
 ASSUMPTIONS = [
-    'templates have no identifier; no volatile parameters; no channel mapped to None inside a MappingPT; a MappingPT '
-    'that renames channels is not placed directly above a constraint-free MappingPT',
+    'templates have no identifier; no volatile parameters; a MappingPT '
+    'that renames channels is not placed directly above a constraint-free MappingPT; no TimeReversalPT directly below '
+    'an atomic composite (AtomicMultiChannelPT / ArithmeticAtomicPT)',
     'ArithmeticPT: operators + - * / with parameter-only scalars (optionally multiplied by the time variable next to '
     'an atomic operand; divisors read a parameter); ArithmeticAtomicPT operands have equal durations',
     'expression language: + - * over parameters and dyadic constants; comparisons < <= > >= ==',
-    'AtomicMultiChannelPT without explicit duration; ParallelChannelPT never inside AtomicMultiChannelPT; '
+    'AtomicMultiChannelPT without explicit duration; time dependent ParallelChannelPT values only next to an atomic '
+    'template (constructor requirement); '
     'ParallelChannelPT values are either all plain or all time dependent (mixed = two nested templates)',
 ]
 
@@ -1212,7 +1222,7 @@ def py_channels(n):
     if k == 'par':
         s |= {c for c, _ in par_ow(n)}
     if k == 'map' and n.get('ren'):
-        s = {n['ren'].get(c, c) for c in s}
+        s = {n['ren'].get(c, c) for c in s} - {None}
     return s
 
 
@@ -1641,12 +1651,46 @@ def directed_par_td_cases(full):
     return cases
 
 
+def directed_ren_none_cases():
+    """D11 (round 4): a MappingPT whose channel_mapping sends an inner channel to None: the channel is dropped below
+    the mapping whatever the caller keeps; its values are not needed (a table still instantiates all entries)"""
+    cases = []
+    ref = {'p0': F(1), 'p1': F(2), 'p2': F(3)}
+    amc2 = lambda a='A', b='B': {'k': 'amc', 'subs': [_const(V('p0'), a), _const(V('p1'), b)], 'cs': [], 'ms': []}
+    tb2 = lambda: {'k': 'table', 'ch': ['A', 'B'], 'reads': [V('p0'), C(1), V('p1'), C(0)], 'dur': C(2),
+                   'cs': [{'op': '<', 'l': V('p0'), 'r': V('p1')}], 'ms': [[C(0), C(1)]]}
+    mp = lambda inner, ren, cs=(): {'k': 'map', 'inner': inner, 'm': {}, 'cs': list(cs), 'ren': dict(ren)}
+    trees = [
+        ('amc', mp(amc2(), {'A': None}), 'B'),
+        ('table', mp(tb2(), {'A': None}), 'B'),
+        ('rename', mp(amc2(), {'A': None, 'B': 'A'}), 'A'),
+        ('par_td', mp({'k': 'par', 'inner': _const(V('p0'), 'A'), 'ow': [['B', V('p1')]], 'td': True}, {'B': None}), 'A'),
+        ('par', mp({'k': 'par', 'inner': _const(V('p0'), 'A'), 'ow': [['B', V('p1')]]}, {'B': None}), 'A'),
+        ('ari', mp({'k': 'ari', 'inner': amc2(), 'op': '+', 'side': 'r', 'sa': [], 'sc': [['A', V('p2')]]}, {'A': None}), 'B'),
+        ('in_amc', {'k': 'amc', 'subs': [mp(amc2('Z1', 'B'), {'Z1': None}), _const(V('p2'), 'A')], 'cs': [], 'ms': []}, 'B'),
+        ('nested', mp(mp(amc2(), {'A': None}, [{'op': '<', 'l': V('p0'), 'r': C(5)}]), {'B': 'A'}), 'A'),
+        ('seq', _seq(mp(amc2(), {'A': None}), _const(V('p2'), 'B')), 'B'),
+        ('func', mp({'k': 'amc', 'subs': [{'k': 'func', 'ch': ['A'], 'reads': [V('p0')], 'dur': C(2), 'cs': [], 'ms': []},
+                                          _const(V('p1'), 'B')], 'cs': [], 'ms': []}, {'A': None}), 'B'),
+    ]
+    for name, tree, left in trees:
+        if not (sympy_ok(tree) and constructible(tree)):
+            continue
+        for drop in ([], [left]):
+            dtag = ''.join(drop) or 'none'
+            cases.append(d_case(tree, ref, 'D11:%s:%s:exact' % (name, dtag), drop=drop))
+            for rm in range(3):
+                cases.append(d_case(tree, ref, 'D11:%s:%s:removed%d' % (name, dtag, rm), kind='removed', rm=rm, drop=drop))
+    return cases
+
+
 def directed_cases(tier):
     full = tier == 'thorough'
     return (directed_mapping_cases(full) + directed_loop_cases() + directed_extra_cases()
             + directed_channel_cases() + directed_frame_cases(full) + directed_history_cases(full)
             + directed_hash_loop_cases(full) + directed_alias_cases(full) + directed_atom_cases()
-            + directed_par_atomic_cases(full) + directed_par_td_cases(full))
+            + directed_par_atomic_cases(full) + directed_par_td_cases(full)
+            + directed_ren_none_cases())
 
 
 def gen_cases(rng, tier, ctx, every_constraint=False):
@@ -1981,8 +2025,9 @@ def g_pt(n, nm):
     if k == 'map':
         inner = g_pt(n['inner'], nm)
         if n.get('ren'):
-            inner = '(Ren %s %s)' % (inner, glist(lambda kv: '(%s, %s)' % (nm('ch:' + kv[0]), nm('ch:' + kv[1])),
-                                                  sorted(n['ren'].items())))
+            inner = '(Ren %s %s)' % (inner, glist(
+                lambda kv: '(%s, %s)' % (nm('ch:' + kv[0]), 'None' if kv[1] is None else '(Some %s)' % nm('ch:' + kv[1])),
+                sorted(n['ren'].items())))
         return '(Map %s %s %s)' % (inner,
                                    glist(lambda kv: '(%s, %s)' % (nm(kv[0]), g_expr(kv[1], nm)), list(n['m'].items())),
                                    g_cs(n['cs'], nm))
@@ -2041,7 +2086,8 @@ def histogram_keys(case, obs):
         if n['k'] == 'map' and any(key in evars(e) for key, e in n['m'].items()):
             keys.append('map:self_referential')
         if n['k'] == 'map' and n.get('ren'):
-            keys.append('map:channels_' + ('swapped' if len(n['ren']) == 2 else 'renamed'))
+            keys.append('map:channels_' + ('dropped' if None in n['ren'].values() else
+                                           'swapped' if len(n['ren']) == 2 else 'renamed'))
         if n['k'] == 'map' and n.get('mren'):
             keys.append('map:measurement_renamed')
         if n['k'] == 'for' and n['idx'] in (evars(n['a']) | evars(n['b']) | evars(n['st']) | cs_vars(n['cs'])):
@@ -2222,9 +2268,10 @@ def search_failing(ctx, broken):
 MANIFEST = {
     'level_text': 'Proof + correspondence.  Gallina model of parameter_names, the MappingPT constructor, the scope classes '
                   '(lazy MappedScope, RangeScope, keys()/as_dict() forcing) and _create_program / build_waveform / '
-                  'get_measurement_windows of Table/Point/Function/Constant/AtomicMultiChannel/ParallelChannel/Arithmetic '
-                  '(scalar and atomic)/TimeReversal/Sequence/Repetition/ForLoop/Mapping templates with per-channel '
-                  'dropping and the channel renaming of MappingPT (Ren); FunctionPT substitution is modelled '
+                  'get_measurement_windows of Table/Point/Function/Constant/AtomicMultiChannel/ParallelChannel (plain and '
+                  'time dependent values, also below atomic composites)/Arithmetic (scalar and atomic)/TimeReversal/'
+                  'Sequence/Repetition/ForLoop/Mapping templates with per-channel dropping and the channel renaming of '
+                  'MappingPT; FunctionPT expressions and time dependent ParallelChannelPT values are substituted '
                   'symbolically (polynomial residual).  Proved for all trees, scopes and drop sets (induction on the '
                   'template): the constructor preserves the specification (C03_construct_spec), so all clauses are '
                   'stated on the user-level tree; the model refines an independent lazy specification (obligations of '
@@ -2232,23 +2279,31 @@ MANIFEST = {
                   'the same result, complete or not (C03_irrelevant); (c) complete assignment: accepted iff every '
                   'obligation holds, else ParameterConstraintViolation; (c only-if, d) for any assignment under the '
                   'executable guard guard_C03_function_zero; C03_missing_refuted exhibits the known finding in the '
-                  'model.  The model is tied to /repo by an exact correspondence check on a deterministic directed '
-                  'stream of name-coincidence classes (self-referential / shadowing / swap mappings in every position, '
-                  'loop index = range name, extra parameters named like internal names, channel renaming x dropped '
-                  'channels) plus generated trees x assignment families (thorough: exhaustive small scope); check_spec '
-                  'evaluates the clauses from the specification on the user-level tree, clause (b) including equality '
-                  'of the two instantiated programs (sampled); failing cases are classified by the Coq guard.',
-    'level_note': 'Known finding (FunctionPT: a missing parameter multiplied by a supplied 0 vanishes symbolically) is '
-                  'reproduced by the model; clauses (c only-if)/(d) and the refinement are proved under the guard that '
-                  'excludes exactly such inputs.  Four defects fixed in /repo (nested MappingPT dropped inner '
-                  'constraints; ArithmeticAtomicPT did not declare its measurement parameters; a parameter called t '
-                  'broke ArithmeticPT scalars / time dependent ParallelChannelPT values; the eager scope copy hiding t '
-                  'changed the result of incomplete assignments).  Equality of program contents in clause (b) is '
-                  'tested, not proved (waveforms are not modelled).  Trusted: Coq kernel, sympy on the generated '
-                  'polynomial fragment (function expressions of depth <= 2), harness.  Not modelled: volatile '
-                  'parameters, time dependent ParallelChannelPT values, channel_mapping to None inside a MappingPT.',
+                  'model.  The model is a function of tree and assignment; that the code has no memory either is tested: '
+                  'the correspondence check runs single calls AND histories of calls on one template object (Coq case '
+                  'CHist: every step judged on its own by model and specification) on a deterministic directed stream '
+                  '(name coincidences D1-D4; frame-pushing nodes between a rebinding mapping and the reader D5; '
+                  'hash-colliding values in histories and loop ranges H1/H2; aliased objects D7; zero durations D8; '
+                  'ParallelChannelPT below atomic composites D9; time dependent values D10) plus generated trees x '
+                  'assignment families x value types (thorough: exhaustive small scope, full directed products); '
+                  'check_spec evaluates the clauses from the specification on the user-level tree, clause (b) '
+                  'including equality of the instantiated programs (sampled); failing cases are classified by the '
+                  'Coq guard.',
+    'level_note': 'Known finding (FunctionPT / time dependent ParallelChannelPT value: a missing parameter multiplied by a '
+                  'supplied 0 vanishes symbolically) is reproduced by the model; clauses (c only-if)/(d) and the '
+                  'refinement are proved under the guard that excludes exactly such inputs.  Six defects fixed in /repo '
+                  '(nested MappingPT dropped inner constraints; ArithmeticAtomicPT did not declare its measurement '
+                  'parameters; a parameter called t broke ArithmeticPT scalars / time dependent ParallelChannelPT '
+                  'values; two eager scope copies hiding t changed the result of incomplete assignments (ArithmeticPT, '
+                  'round 4: ParallelChannelPT, found by a failing proof); a time dependent ParallelChannelPT value '
+                  'whose time dependence vanishes raised AssertionError).  Equality of program contents in clause (b) '
+                  'and along histories is tested, not proved (waveforms are not modelled).  Trusted: Coq kernel, sympy '
+                  'on the generated polynomial fragment (function expressions of depth <= 2), harness.  Not modelled: '
+                  'volatile parameters, AtomicMultiChannelPT explicit duration, TimeReversalPT below an atomic '
+                  'composite.',
     'technique': 'Coq proof (structural induction over the nested template type; refinement of a lazy obligation '
                  'semantics; relational proof over scope objects) + correspondence check with an independent '
-                 'specification oracle on a directed deterministic stream and a random stream',
+                 'specification oracle on a directed deterministic stream, histories on shared objects and a random '
+                 'stream',
     'design_ref': 'DESIGN.md §5 C03',
 }
